@@ -5,7 +5,8 @@
    /repo/src/halmos/{cheatcodes,console,sevm}.py on every run. *)
 From Coq Require Import ZArith NArith List Bool String.
 From HV Require Import Base.Keccak Base.SmtBV Gen.GenCheatSelectors Spec.FoundrySpec
-  Model.PrankModel Model.CheatModel Proofs.PrankProofs Proofs.CheatSelProofs Proofs.CheatProofs.
+  Gen.GenCopies Model.PrankModel Model.CheatModel Model.ForkModel
+  Proofs.PrankProofs Proofs.CheatSelProofs Proofs.CheatProofs Proofs.ForkProofs.
 Import ListNotations.
 Open Scope Z_scope.
 
@@ -26,38 +27,37 @@ Print Assumptions C14_selectors_svm.
 
 (* ------------------------------------------------------------------ prank *)
 (* For EVERY finite sequence of prank / prank2 / startPrank / startPrank2 / stopPrank /
-   cheatcode call / call / static call / create / return / new transaction, starting from
-   any top-level frame, the sender and origin each entered frame observes under the model of
-   halmos equal those of Foundry's documented meaning -- provided no console.log call
-   occurs (see C14_prank_trace_refuted) and ordinary calls do not target a cheatcode address. *)
-Theorem C14_prank_trace_partial :
+   cheatcode call (vm.*, svm.*, console.log) / call / static call / create / return / new
+   transaction, starting from any top-level frame, the sender and origin each entered frame
+   observes under the model of halmos equal those of Foundry's documented meaning
+   (ordinary calls do not target a cheatcode address: those are the OCheat ops). *)
+Theorem C14_prank_trace :
   forall this sender origin ops,
-    Forall not_console ops -> Forall target_ok ops ->
+    Forall target_ok ops ->
     m_run [m_fresh this sender origin] ops = s_run [s_fresh this sender origin] ops.
 Proof. exact prank_trace. Qed.
-Print Assumptions C14_prank_trace_partial.
+Print Assumptions C14_prank_trace.
 
-(* The full statement (console.log included among the cheatcode calls, as in
-   sevm.CHEATCODE_ADDRESSES and in Foundry) is false of halmos: Prank.lookup exempts only
-   the hevm and svm addresses, so a console.log between vm.prank(a) and the call consumes
-   the prank and the call is made with the unpranked sender. *)
-Theorem C14_prank_trace_refuted :
-  exists this sender origin ops,
-    Forall target_ok ops /\
-    m_run [m_fresh this sender origin] ops <> s_run [s_fresh this sender origin] ops.
-Proof. exact prank_trace_refuted. Qed.
-Print Assumptions C14_prank_trace_refuted.
+(* "never cheatcode calls": the callees Prank.lookup exempts are exactly the addresses
+   SEVM.call treats as cheatcode addresses (hevm, svm, console -- both lists regenerated from
+   the source), and a call to any of them, anywhere in any sequence, changes nothing any
+   entered frame observes *)
+Theorem C14_prank_exempt :
+  forall a, In a prank_exempt <-> In a cheatcode_addresses.
+Proof. exact prank_exempt_exact. Qed.
+Print Assumptions C14_prank_exempt.
 
-Theorem C14_prank_exempt_refuted :
-  exists a, In a cheatcode_addresses /\ ~ In a prank_exempt.
-Proof. exact prank_exempt_incomplete. Qed.
-Print Assumptions C14_prank_exempt_refuted.
+Theorem C14_prank_cheat_transparent :
+  forall pre c post st,
+    m_run st (pre ++ OCheat c :: post) = m_run st (pre ++ post).
+Proof. exact cheat_call_transparent. Qed.
+Print Assumptions C14_prank_cheat_transparent.
 
 (* a second prank/startPrank while one is in force (by Foundry's reading of the frame's own
    history) is rejected, after every accepted prefix; otherwise it is accepted *)
 Theorem C14_prank_reject :
   forall this sender origin pre o post sf srest,
-    Forall not_console pre -> Forall target_ok pre ->
+    Forall target_ok pre ->
     s_after [s_fresh this sender origin] pre = Some (sf :: srest) ->
     in_effect (s_hist sf) false <> None -> is_prank_op o = true ->
     m_run [m_fresh this sender origin] (pre ++ o :: post) =
@@ -67,7 +67,7 @@ Print Assumptions C14_prank_reject.
 
 Theorem C14_prank_accept :
   forall this sender origin pre o sf srest,
-    Forall not_console pre -> Forall target_ok pre ->
+    Forall target_ok pre ->
     s_after [s_fresh this sender origin] pre = Some (sf :: srest) ->
     in_effect (s_hist sf) false = None -> is_prank_op o = true ->
     m_after [m_fresh this sender origin] (pre ++ [o]) <> None.
@@ -86,14 +86,13 @@ Print Assumptions C14_prank_not_inherited.
 Example C14_prank_nonvacuous :
   (* startPrank2 in the outer frame, a nested frame pranking on its own, return, stop *)
   let ops := [OStartPrank2 7 8; OCall KCall 20; OCall KStatic 21; OReturn; OPrank 9; OCheat CHevm;
-              OCreate 22; OReturn; OCall KCall 23; OReturn; OReturn; OCall KCall 24; OReturn; OStopPrank;
+              OCheat CConsole; OCreate 22; OReturn; OCall KCall 23; OReturn; OReturn; OCall KCall 24; OReturn; OStopPrank;
               OCall KCall 25; OReturn; ONewTx 30 31 32; OCall KCall 33] in
-  Forall not_console ops /\ Forall target_ok ops /\
+  Forall target_ok ops /\
   m_run [m_fresh 1 2 3] ops =
     [Obs 7 8; Obs 20 8; Obs 9 8; Obs 20 8; Obs 7 8; Obs 1 3; Obs 30 32].
 Proof.
-  cbv zeta. split; [|split].
-  - repeat constructor.
+  cbv zeta. split.
   - repeat constructor; cbn; vm_compute; intuition discriminate.
   - vm_compute. reflexivity.
 Qed.
@@ -168,6 +167,77 @@ Theorem C14_state_block :
      block_of w' = (mw_basefee w, mw_chainid w, mw_coinbase w, x, mw_number w, mw_timestamp w)).
 Proof. exact state_block. Qed.
 Print Assumptions C14_state_block.
+
+(* ------------------------------------------------------------------ ... on every path *)
+(* The theorems above are about one path.  halmos keeps the world of a path in mutable objects
+   (ex.block, ex.storage, ex.code; ex.balance is an immutable term) and at a symbolic branch
+   SEVM.create_branch derives the sibling's Exec, copying some fields and sharing others
+   (Gen/GenCopies.v create_branch_table, regenerated from sevm.py on every run).
+   Model/ForkModel.v gives objects identity: heaps of Block / storage / code objects, in-place
+   mutation through the Exec's references, the worklist order of SEVM.jumpi.
+
+   For EVERY program -- any tree of state cheatcodes, reads and symbolic two-sided branches,
+   nested to any depth -- from every initial world, the outputs of the paths of that run are
+   those of the value semantics spec_run, where both sides of a branch continue from the same
+   world VALUE: what one path sets, no sibling path reads. *)
+Theorem C14_fork_isolation :
+  forall t w, snd (run (init_heaps w) (init_exec w) t []) = spec_run w t [].
+Proof. exact fork_isolation_init. Qed.
+Print Assumptions C14_fork_isolation.
+
+(* the same from any heap and any Exec whose references are valid *)
+Theorem C14_fork_isolation_any_heap :
+  forall t h x, wfx h x -> snd (run h x t []) = spec_run (view h x) t [].
+Proof. exact fork_isolation. Qed.
+Print Assumptions C14_fork_isolation_any_heap.
+
+(* and the value semantics is "every path on its own": each output is the straight-line run
+   (lin_run: do_cheat and the reads of the theorems above, item after item) of a root-to-leaf
+   item sequence, and every root-to-leaf sequence is represented *)
+Theorem C14_fork_paths :
+  (forall t w acc out, In out (spec_run w t acc) -> exists p, In p (paths t) /\ out = acc ++ lin_run w p) /\
+  (forall t w acc p, In p (paths t) -> In (acc ++ lin_run w p) (spec_run w t acc)).
+Proof. exact (conj spec_run_sound spec_run_complete). Qed.
+Print Assumptions C14_fork_paths.
+
+(* the copies are what makes it true: for a create_branch with arbitrary copy kinds
+   (kb, ks, kc) for block / storage / code, isolation holds for every program EXACTLY when the
+   new Exec gets its own Block object, a deep copy of the storage and its own code dict *)
+Theorem C14_fork_isolation_iff :
+  forall kb ks kc,
+    (forall t w, snd (run_with kb ks kc (init_heaps w) (init_exec w) t []) = spec_run w t []) <->
+    copied kb && deep_copied ks && copied kc = true.
+Proof. exact fork_isolation_iff. Qed.
+Print Assumptions C14_fork_isolation_iff.
+
+(* the in-place premise, tied to the source: for every arm of hevm_cheat_code.handle in the
+   regenerated table (selector constant, attribute of ex.block, uint160?) and all worlds and
+   words, the model's cheat for that selector sets exactly that attribute and nothing else;
+   all six block-setting selectors are in the table *)
+Theorem C14_block_handlers :
+  (forall sel f trunc, In (sel, f, trunc) block_handlers -> forall w x,
+     exists c w' i,
+       cheat_of_selector sel x = Some c /\ do_cheat w c = SDone w' None /\ field_index f = Some i /\
+       blk_list w' = ForkModel.upd (blk_list w) i (if trunc then u160 x else x) /\
+       mw_balance w' = mw_balance w /\ mw_storage w' = mw_storage w /\ mw_code w' = mw_code w) /\
+  forallb (fun s => existsb (fun e => N.eqb (fst (fst e)) s) block_handlers)
+          [fee_sig; chainid_sig; coinbase_sig; difficulty_sig; roll_sig; warp_sig] = true /\
+  List.length block_handlers = 6%nat.
+Proof. exact (conj block_handlers_in_place block_handlers_cover). Qed.
+Print Assumptions C14_block_handlers.
+
+Example C14_fork_nonvacuous :
+  (* vm.warp(100); vm.store(1,5,7); if (c) { if (d) { timestamp } else { vm.roll(4); number } ; sload }
+     else { vm.warp(300); vm.store(1,5,9); vm.etch(2, ..) ; timestamp } *)
+  let t := FItem (ICheat (Warp 100)) (FItem (ICheat (Store 1 5 7))
+             (FFork (FItem (ICheat (Warp 300)) (FItem (ICheat (Store 1 5 9)) (FItem (ICheat (Etch 2 [1; 2])) (FItem ITimestamp FEnd))))
+                    (FFork (FItem (ICheat (Roll 4)) (FItem INumber (FItem (ISload 1 5) FEnd)))
+                           (FItem ITimestamp (FItem INumber (FItem (ISload 1 5) (FItem (IExtcodesize 2) FEnd))))))) in
+  snd (run (init_heaps w0) (init_exec w0) t []) = [[1; 1; 1; 1; 1; 300]; [1; 1; 1; 4; 7]; [1; 1; 100; 0; 7; -1]] /\
+  (* with a shared Block object the last path would read the sibling's vm.warp(300) and vm.roll(4) *)
+  snd (run_with Share Deep Shallow (init_heaps w0) (init_exec w0) t []) =
+    [[1; 1; 1; 1; 1; 300]; [1; 1; 1; 4; 7]; [1; 1; 300; 4; 7; -1]].
+Proof. split; vm_compute; reflexivity. Qed.
 
 (* ------------------------------------------------------------------ created values *)
 (* createUint(n) / randomUint(n), every width 1..256: one fresh symbol, a 32-byte word that
